@@ -1,6 +1,7 @@
 """GrouperProcess / Merger / Uniquness (src/grouper.rs, merger.rs, duplication_remover.rs): k rows with keys free under
 an abstract equivalence; exactly one complete collection at end of input; first occurrences only."""
 import json
+import re
 import z3
 from .lib import *
 from .report import Candidate, Broken
@@ -164,7 +165,14 @@ def collectors(ctx):
     K = 3 if ctx.quick else 4
     run.bounds['collectors'] = f'k <= {K} rows; group key of each row absent / string (free identity under an abstract equivalence: repeats and distinct keys) / non-string; successor answers free'
     run.assume('IndexMap modelled as an insertion-ordered association list over an abstract key equivalence (one Int class per key); Vec as a sequence')
-    ex = ctx.exec(summaries=mk_summaries(ctx, K), inline=[(r'GrouperProcess::name$', r'^grouper::<impl at [^>]*>::name$')], max_visits=6 * K + 12)
+    # every inherent method of the two collector structs found in the MIR is executed (a helper added by an edit is code of the stage)
+    helpers = []
+    for mod, sname in (('grouper', 'GrouperProcess'), ('merger', 'Merger')):
+        for n in ctx.fns:
+            m = re.match(r'^%s::<impl at [^>]*>::(\w+)$' % mod, n)
+            if m and m.group(1) not in ('process', 'complete', 'start', 'create_process', 'from_str', 'fmt', 'clone') and ctx.fns[n].params and re.search(r'\b%s\b' % sname, ctx.fns[n].params[0][1]):
+                helpers.append((r'%s::%s$' % (sname, m.group(1)), '^' + re.escape(n) + '$'))
+    ex = ctx.exec(summaries=mk_summaries(ctx, K), inline=helpers or [(r'GrouperProcess::name$', r'^grouper::<impl at [^>]*>::name$')], max_visits=6 * K + 12)
     fg = run.family('grouper.collect', 'process answers Continue and forwards nothing; complete forwards exactly one context: the object of the distinct string keys in first-seen order, each with that key\'s rows in arrival order; unkeyed rows nowhere; also for k = 0')
     fm = run.family('merger.collect', 'process answers Continue and forwards nothing; complete forwards exactly one context holding every row in arrival order; also for k = 0')
     fs = run.family('collector.start', 'Grouper/Merger start() forwards start once with empty titles')
@@ -292,6 +300,17 @@ def replay_collect(ctx, cands):
             except Exception: got = show(r['stdout'])
             ok_ = got == exp and r['rc'] == 0 and (not isinstance(got, list) or not got or not isinstance(got[0], dict) or list(got[0].keys()) == list(exp[0].keys()))
             if not ok_: found = {'argv': argv, 'stdin': rows, 'expected': exp, 'actual': got, 'rc': r['rc']}; break
+        if not found:
+            # the collected rows are the rows the ungrouped pipeline prints: selections missing in a row stay missing
+            for rows in ([{'a': 1, 'k': 'x'}, {'b': 2, 'k': 'x'}, {'k': 'y'}],):
+                sel = ['--select', '.a=a', '--select', '.b=b']
+                argv = (['--group-by', '.k'] if stage == 'Grouper' else ['--merge']) + sel + ['--style', 'consise']
+                built = [{k: v for k, v in r_.items() if k in ('a', 'b')} for r_ in rows]
+                exp = [{'x': built[:2], 'y': built[2:]}] if stage == 'Grouper' else [built]
+                r = run_jawk(ctx, argv, ' '.join(json.dumps(x) for x in rows).encode())
+                try: got = [json.loads(l) for l in show(r['stdout']).splitlines() if l.strip()]
+                except Exception: got = show(r['stdout'])
+                if got != exp or r['rc'] != 0: found = {'argv': argv, 'stdin': rows, 'expected': exp, 'actual': got, 'rc': r['rc']}
         c.replay = found
         c.status = 'reproduced' if found else 'unit'
 
